@@ -236,7 +236,7 @@ def showRes : Res → String
 /-- the forms in which the harness writes / consumes the solve expression; all denote the same `X`
 (`r j p q m n`: lazily consumed matrix solves, matrix right-hand sides only) -/
 def formKnown (form : Char) (isVec : Bool) : Bool :=
-  "siabe".toList.contains form || (!isVec && "rjpqmn".toList.contains form)
+  "siabexy".toList.contains form || (!isVec && "rjpqmn".toList.contains form)
 
 def opSolve : P String := do
   let tag ← word
@@ -281,6 +281,7 @@ def opDecomp : P String := do
     | "lu" => pure ("lu", A0)
     | "semi" => pure ("semi", A0)
     | "eig" => pure ("eig", Asym)
+    | "eigd" => pure ("eig", Asym)
     | _ => failure : P (String × Mat))
   let mut approx := false
   let mut vals : List Rat := []
@@ -289,6 +290,21 @@ def opDecomp : P String := do
     | .skip => return "skip"
     | .exc w => return "exc " ++ w
     | .ok ap v => approx := approx || ap; vals := vals ++ v
+  if cls == "semi" then
+    -- rank and compute_inverse_factor
+    match runPstrf n A with
+    | none => return "skip"
+    | some (s, exact) =>
+      let rank := s.rank.getD n
+      let small := n ≤ 5
+      let F : Mat := fun i j => mget s.M i j
+      let G : Mat := fun a c => sum n fun i => F i a * F i c
+      let C : Arr2 := if rank = n then #[] else cholCols (rsqrt small) rank G
+      let exact2 := rank = n || rootsExact rank G C
+      if !exact2 && !small then return "skip"
+      let IF := semiInverseFactor n (s, C)
+      let ap := approx || !(exact && exact2)
+      return "ok" ++ (if ap then " approx" else "") ++ s!" rank={rank}" ++ showVals (vals ++ flat rank n fun a c => mget IF a c)
   pure ("ok" ++ (if approx then " approx" else "") ++ showVals vals)
 
 /-- `cholseq` / `cholup`: `cholesky_decomposition(A)`, `k` rank-one updates on the same object, then
